@@ -114,7 +114,7 @@ def name_cause(name, printed, rs, ro):
     if name == "":
         return "empty-name"
     if printed == name and (name in STD_RESERVED or name in ("DECIMAL", "NUMERAL", "STRING", "_", "!")):
-        return "reserved-word-unquoted"
+        return "reserved-word-unquoted:" + name
     if printed == name and ro != name and rs == name and NUMLIKE.match(name):
         return "numeral-like-symbol"
     return "unexplained"
@@ -317,7 +317,19 @@ def term_failure_cause(M, impl_text, spec_syms_names, want_wire, got):
         return sorted(set(bad))[0]
     w = N2.wire_str(want_wire)
     if "r:as" in w and (got is None or "r:as" not in " ".join(N2.wire_str(g) for g in got)):
-        return "quoted-ambiguous-not-qualified"
+        # which names had to be qualified?  the known defect concerns only those that are printed between bars
+        need = []
+
+        def walk(e):
+            if isinstance(e, list):
+                if len(e) == 3 and e[0] == ("r", "as") and isinstance(e[1], tuple):
+                    need.append(e[1][1])
+                for x in e:
+                    walk(x)
+        walk(want_wire)
+        if need and all(M.protect(n, "f")[0] != n for n in need):
+            return "quoted-ambiguous-not-qualified"
+        return "ambiguous-not-qualified"
     if "r:as" in w:
         return "sort-name-unquoted"
     return "unexplained"
@@ -781,7 +793,7 @@ def check_model(ctx, M, c, seg, frames, sig, concrete_text, idx):
                 if not (isinstance(p, list) and len(p) == 2 and isinstance(p[0], tuple) and p[0][0] == "y"):
                     raise N2.Unmapped("parameter", N2.wire_str(p))
                 if p[0][1] in user_names:
-                    clash = (p[0][1], d[1][1])
+                    clash = (p[0][1], d[1][1], p[1])
                 bound[p[0][1]] = "prm%d" % j
                 params.append(["prm%d" % j, N2.to_plain(p[1], inv, sort_pos=True)])
             rs = N2.to_plain(d[3], inv, sort_pos=True)
@@ -795,8 +807,17 @@ def check_model(ctx, M, c, seg, frames, sig, concrete_text, idx):
         ctx.violation(classify(M, c, art, seg), "the printed model defines %s, declared are %s" % (sorted(seen), sorted(declared)), replay)
         return None
     if clash:
+        # NameClashResolver renames a parameter that *is* one of the user's constants (same name, same sort); what it
+        # does not see (the known defect) are user symbols of that name with another sort or arity
+        same = False
+        try:
+            pl = [p_ for (k_, p_) in inv.get(clash[0], []) if k_ == "fun"]
+            if pl and not sig.funs[pl[0]][0]:
+                same = sig.funs[pl[0]][1] == sig.sort_of_sx(N2.to_plain(clash[2], inv, sort_pos=True))
+        except Exception:
+            same = False
         sample("model:formal-arg-clash", dict(case="get-model", script=concrete_text, printed=seg, parameter=clash[0], of=clash[1]))
-        ctx.violation("model:formal-arg-clash", "the definition of %r printed by get-model has the formal parameter %r, which is the name of a "
+        ctx.violation("model:formal-arg-clash-same-sort" if same else "model:formal-arg-clash", "the definition of %r printed by get-model has the formal parameter %r, which is the name of a "
                       "declared symbol" % (clash[1], clash[0]), replay)
     # semantic: the plain image of the printed model satisfies the plain assertions (verified evaluator)
     asserts = [solvercheck.strip_named(a) for a in solvercheck.active_assertions(frames)]
